@@ -25,6 +25,7 @@ import (
 //	variadic / select / constuse             the cases of GoMisc.tla (one small program each)
 //	minigo    {id, prog, forms}              a program of the mini language of MiniGo.tla, written in one or more source forms
 //	pkginit   {id, imps, vars, inits, forms} a program of several packages (PkgInit.tla): go.mod + one directory per package
+//	godata    {id, ops, capk}                a straight-line program over composite data (GoData.tla): the operations are Go statements
 //
 // The driver only writes Go source for a case (string templates), builds and runs it with the public
 // API and logs what was printed / returned.  No expected value is computed here.
@@ -1135,6 +1136,121 @@ func miscRun(raw []byte) []any {
 	return []any{o}
 }
 
+// ---------------------------------------------------------------- godata: value semantics of composite data (GoData.tla)
+
+// A case is a straight-line program: the fixed declarations of GoData.tla, then the operations (Go statements, written
+// by the specification's alphabet) in order; the observable state is printed before the first and after every operation.
+// capk[l] says for the l-th printed line which of cap(s), cap(t), cap(u) it shows (the specification leaves the
+// capacity after a growing append open: the reference tells where it is fixed).
+type gdCase struct {
+	ID   int      `json:"id"`
+	Ops  []string `json:"ops"`
+	CapK [][]int  `json:"capk"`
+}
+
+const gdPreamble = `package main
+
+type T struct {
+	x int
+	a [2]int
+}
+
+func main() {
+	i := 1
+	a := [3]int{1, 2, 3}
+	b := [3]int{4, 5, 6}
+	s := make([]int, 2, 4)
+	s[0], s[1] = 11, 12
+	var t []int
+	u := []int{21, 22, 23}
+	m := map[int]int{1: 31}
+	var n map[int]int
+	p := T{41, [2]int{42, 43}}
+	q := T{51, [2]int{52, 53}}
+	var pi *int
+	var pt *T
+	f := func() {}
+	_ = f
+`
+
+// the statements that print one line of observable state (no closure, no address taken: printing must not change
+// how the variables are stored)
+func gdShow(capk []int) string {
+	var b strings.Builder
+	b.WriteString("\tprint(i, \" \", a[0], \" \", a[1], \" \", a[2], \" \", b[0], \" \", b[1], \" \", b[2], \" \")\n")
+	for k, v := range []string{"s", "t", "u"} {
+		b.WriteString("\tprint(" + v + " == nil, \" \", len(" + v + "), \" \")\n")
+		if k < len(capk) && capk[k] == 1 {
+			b.WriteString("\tprint(cap(" + v + "), \" \")\n")
+		}
+		b.WriteString("\tfor _, e := range " + v + " {\n\t\tprint(e, \" \")\n\t}\n")
+	}
+	for _, v := range []string{"m", "n"} {
+		b.WriteString("\tprint(" + v + " == nil, \" \", len(" + v + "), \" \", " + v + "[1], \" \", " + v + "[2], \" \", " + v + "[3], \" \")\n")
+	}
+	b.WriteString("\tprint(p.x, \" \", p.a[0], \" \", p.a[1], \" \", q.x, \" \", q.a[0], \" \", q.a[1], \" \")\n")
+	b.WriteString("\tif pi == nil {\n\t\tprint(true, \" \")\n\t} else {\n\t\tprint(false, \" \", *pi, \" \")\n\t}\n")
+	b.WriteString("\tif pt == nil {\n\t\tprint(true, \" \")\n\t} else {\n\t\tprint(false, \" \", pt.x, \" \", pt.a[0], \" \", pt.a[1], \" \")\n\t}\n")
+	b.WriteString("\tprintln()\n")
+	return b.String()
+}
+
+func gdSource(c gdCase) string {
+	var b strings.Builder
+	b.WriteString(gdPreamble)
+	capk := func(l int) []int {
+		if l < len(c.CapK) {
+			return c.CapK[l]
+		}
+		return nil
+	}
+	b.WriteString(gdShow(capk(0)))
+	for j, op := range c.Ops {
+		b.WriteString("\t" + op + "\n")
+		b.WriteString(gdShow(capk(j + 1)))
+	}
+	b.WriteString("}\n")
+	return b.String()
+}
+
+// gdRun logs the printed lines as sequences of integers (true = 1, false = 0; -999 for any other value), the outcome
+// and the message of the panic as bytes.
+func gdRun(raw []byte) []any {
+	var c gdCase
+	o := map[string]any{}
+	if err := json.Unmarshal(raw, &c); err != nil {
+		return []any{map[string]any{"id": 0, "fam": "godata", "ops": []any{}, "outcome": "badcase", "out": []any{}, "msg": []int{}}}
+	}
+	_ = json.Unmarshal(raw, &o) // echo every field of the case
+	src := gdSource(c)
+	res := runFilesLim(scriggo.Files{"main.go": []byte(src)}, 10*time.Second, 1000)
+	out := [][]int{}
+	for _, l := range res.Lines {
+		line := []int{}
+		for _, v := range l {
+			switch x := v.(type) {
+			case int:
+				line = append(line, x)
+			case bool:
+				if x {
+					line = append(line, 1)
+				} else {
+					line = append(line, 0)
+				}
+			default:
+				line = append(line, -999)
+			}
+		}
+		out = append(out, line)
+	}
+	o["outcome"], o["out"], o["msg"] = res.Outcome, out, drv.IntsS(res.Msg)
+	if *flagKeepSrc {
+		o["src"] = src
+		o["raw"] = rawText(res)
+	}
+	return []any{o}
+}
+
 // ---------------------------------------------------------------- pkginit
 
 type pkgRef struct {
@@ -1339,6 +1455,8 @@ func main() {
 				jobs = append(jobs, func() []any { return miscRun(raw) })
 			case "pkginit":
 				jobs = append(jobs, func() []any { return pkgRun(raw) })
+			case "godata":
+				jobs = append(jobs, func() []any { return gdRun(raw) })
 			case "initorder":
 				var c initCase
 				if err := json.Unmarshal(raw, &c); err != nil {
